@@ -179,7 +179,10 @@ def run(tape, prop, tier):
                 return self._finalize()
 
             async def _finalize(self):
-                await asyncio.sleep(self.spec["fin_delay"])
+                try:
+                    await asyncio.sleep(self.spec["fin_delay"])
+                finally:
+                    tr.append(("fin_end", self.i, loop.time()))
                 if fin_fails and self.i == fin_failing:
                     res.faults["producer_finalize_raises"] += 1
                     res.probes["finalize_failed"] += 1
@@ -227,6 +230,10 @@ def run(tape, prop, tier):
                     tr.append(("exit", hid, ev.eid, loop.time()))
                 except asyncio.CancelledError:
                     S["cancelled_handlers"] += 1
+                    if (hid + ev.eid) % 4 == 0:
+                        # asynchronous clean-up on cancellation (does not suppress it)
+                        S["cleanup"] = max(S.get("cleanup", 0.0), 0.05)
+                        await asyncio.sleep(0.05)
                     raise
                 finally:
                     S["ev_inflight"][ev.eid] -= 1
@@ -433,11 +440,19 @@ def run(tape, prop, tier):
         fins = collections.Counter(x[1] for x in tr if x[0] == "fin")
         if any(fins[i] != 1 for i in range(nprod)):
             viol("finalize-count", f"finalize() calls per producer: {[fins[i] for i in range(nprod)]}")
+    if o[0] in ("return", "raise") and "cancel" not in [k for _, _, k in S["trigs"]]:
+        # nobody cancelled run(): when it ends, every finalize() it started has run to its end (also when another
+        # producer's finalize() failed)
+        started = {x[1] for x in tr if x[0] == "fin"}
+        ended = {x[1] for x in tr if x[0] == "fin_end" and x[2] <= out["t_end"] + 1e-9}
+        if started - ended:
+            viol("finalize-abandoned", f"run() ended while finalize() of producers {sorted(started - ended)} was still in progress "
+                                       f"(finalize of producer {fin_failing if fin_fails else None} fails)")
     if S["max_in"] > maxc:
         viol("concurrency-bound", f"{S['max_in']} events/jobs/idle handlers in handling at once")
     if S["trigs"] and o[0] in ("return", "raise", "cancelled"):
         lat = out["t_end"] - S["trigs"][0][0]
-        fin_budget = sum(p["fin_delay"] for p in prods) + 0.2
+        fin_budget = sum(p["fin_delay"] for p in prods) + 0.2 + S.get("cleanup", 0.0) * 2
         if lat > fin_budget:
             viol("not-prompt", f"run() ended {lat:.2f} s after the first stop/cancel/producer-failure trigger "
                                f"(finalize budget {fin_budget:.2f} s)")
